@@ -54,13 +54,24 @@ Proof.
   eapply Permutation_in; [symmetry; exact P|exact Hd].
 Qed.
 
+Lemma anyb_existsb {X} (f : X -> bool) l : anyb f l = existsb f l.
+Proof. induction l as [|x l IH]; cbn; auto. destruct (f x); auto. Qed.
+
+Lemma lin_unfold f fin s a h0 :
+  lin (S f) fin s (a :: h0) =
+  existsb (fun '(c, r) =>
+    minimal c r && (let '(s', res) := step s (cop c) in accept res (cres c) && lin f fin s' r)) (picks (a :: h0)).
+Proof.
+  cbn [Lin.lin]. rewrite anyb_existsb. f_equal.
+Qed.
+
 Theorem lin_sound fin fuel s h :
   lin fuel fin s h = true -> linearizable (fun x => fin x = true) s h.
 Proof.
   revert s h; induction fuel as [|f IH]; intros s h H.
   - destruct h; [|discriminate]. exists []. cbn in *. repeat split; auto.
   - destruct h as [|a h0]; [exists []; cbn in *; repeat split; auto|].
-    cbn [Lin.lin] in H. apply existsb_exists in H. destruct H as ([c r] & Hin & H).
+    rewrite lin_unfold in H. apply existsb_exists in H. destruct H as ([c r] & Hin & H).
     apply andb_true_iff in H. destruct H as [Hm H].
     destruct (step s (cop c)) as [s' res] eqn:E. apply andb_true_iff in H. destruct H as [Hr H].
     apply IH in H. destruct H as (l & P & RT & L & F).
@@ -81,7 +92,7 @@ Proof.
   - apply Permutation_nil in P. subst. destruct fuel; exact F.
   - destruct h as [|a h0]; [apply Permutation_sym, Permutation_nil in P; discriminate|].
     destruct fuel as [|f]; [cbn in Fu; lia|].
-    cbn [Lin.lin]. apply existsb_exists.
+    rewrite lin_unfold. apply existsb_exists.
     destruct (picks_complete P) as (r' & Hin & Pr).
     exists (c, r'). split; [exact Hin|].
     cbn in RT, L, F. destruct RT as [RT1 RT2]. destruct L as [L1 L2].
